@@ -188,6 +188,39 @@ class FsExecutor(Executor):
     def b_open(self, st, args, kwargs, node):
         return fs_call("open")(self, st, args, kwargs, node)
 
+    def add_vc(self, kind, label, pc, goal, note="", loc=""):
+        # one `call-pre` id per callee: the ordinal of a call site changes when a harmless edit adds / merges / reorders calls
+        if kind == "call-pre" and "@" in label and label.rsplit("@", 1)[1].isdigit():
+            note, label = (note or f"{loc} call site {label}"), label.rsplit("@", 1)[0]
+        return super().add_vc(kind, label, pc, goal, note=note, loc=loc)
+
+    # `k in self._folder_to_files`, `self._folder_to_files[k]`: a dict from folder index to the list of its file indices (any dict: HASF / NIDX /
+    # FIDX are uninterpreted; a missing key raises KeyError as a dict does)
+    def contains(self, st, container, item, node):
+        from pyvc.values import VInt
+        if isinstance(container, VExt) and container.sort == "FolderMap" and isinstance(item, VInt):
+            return [(st, VBool(HASF(ops.int_term(item))))]
+        return super().contains(st, container, item, node)
+
+    def get_index(self, st, base, idx, node):
+        from pyvc.values import VInt
+        if isinstance(base, VExt) and base.sort == "FolderMap" and isinstance(idx, VInt):
+            k = ops.int_term(idx)
+            st = self.fork_raise(st, z3.Not(HASF(k)), "KeyError")
+            if st is None:
+                return []
+            st.assume(NIDX(k) >= 0)
+            return [(st, VSeq(NIDX(k), lambda j, k=k: VInt(FIDX(k, j)), "int"))]
+        return super().get_index(st, base, idx, node)
+
+    def b_sum(self, st, args, kwargs, node):
+        """sum() of a list of ints is an int and raises nothing (its value is of no interest here: positions in the in-memory archive)"""
+        from pyvc.values import VInt
+        if len(args) == 1 and not kwargs and isinstance(args[0], VSeq) and args[0].ekind == "int":
+            return [(st, VInt(z3.Int(fresh_name("sum"))))]
+        sup = getattr(super(), "b_sum", None)
+        return sup(st, args, kwargs, node) if sup is not None else self.havoc_call(st, "sum", args, node)
+
     def havoc_call(self, st, what, args, node):
         st.assume(OVER)          # before the fork: "may raise any Exception" is part of the over-approximation
         return super().havoc_call(st, what, args, node)
@@ -321,7 +354,7 @@ FINFO = z3.Function("c09_file_info", I_, FileInfoS)
 FNAME = z3.Function("c09_file_name", FileInfoS, S)                # arbitrary strings: absolute, dot-dot, drive, empty, names of host files
 ISDIR = z3.Function("c09_file_is_directory", FileInfoS, z3.BoolSort())
 USIZE = z3.Function("c09_file_uncompressed", FileInfoS, I_)
-NFOLD = z3.Int("c09_n_folder_lists")
+HASF = z3.Function("c09_folder_has_files", I_, z3.BoolSort())
 NIDX = z3.Function("c09_folder_file_count", I_, I_)
 FIDX = z3.Function("c09_folder_file_index", I_, I_, I_)
 FS_SITES = SYMBOLIC_FS + ("file.write",)
@@ -351,8 +384,8 @@ def writer_contracts(reg):
         reg.method_models[("File", "write")] = m_write
         from pyvc.values import VInt
         p_files = Maker(lambda ex, st, name: [(NFILES >= 0, VSeq(NFILES, lambda i: VExt("FileInfo", FINFO(i)), "FileInfo"))], desc="list[FileInfo], any length, uninterpreted names / kinds / sizes")
-        p_fmap = Maker(lambda ex, st, name: [(NFOLD >= 0, VSeq(NFOLD, lambda k: VSeq(NIDX(k), lambda j: VInt(FIDX(k, j)), "int"), "list[int]"))],
-                       desc="folder index -> list of file indices (a dict in the code; modelled as a total map on 0..n-1, `requires` says the key is present)")
+        from pyvc.verify import p_ext
+        p_fmap = p_ext("FolderMap")        # dict: folder index -> list of file indices (membership / lookup: FsExecutor.contains / get_index)
         p_blob = Maker(lambda ex, st, name: [(z3.Int(f"{name}_len") >= 0, VSeq(z3.Int(f"{name}_len"), lambda i: VInt(z3.Function(f"{name}_byte", I_, I_)(i)), "byte", is_bytes=True))],
                        desc="bytes of any length")
         (mk_path,) = real_params(SEVEN, "_mkdirs", ("path",))
@@ -372,10 +405,15 @@ def writer_contracts(reg):
                  "VERIFIED; callers see the same contract (call-pre obligation at each call site)"))
 
         def ef_requires(c):
-            c.st.ghost["temp_dir"] = c.args[ef_base].t
             k = ops.int_term(c.args[ef_k])
             j = z3.Int("j!c09req")
-            return z3.And(k >= 0, k < NFOLD, NIDX(k) >= 0,
+            temp = c.st.ghost.get("temp_dir")
+            if temp is None:                                   # the function's own verification: base_path IS the private directory
+                c.st.ghost["temp_dir"] = c.args[ef_base].t
+                here = z3.BoolVal(True)
+            else:                                              # a call site: the directory handed over is the caller's private directory
+                here = c.args[ef_base].t == temp
+            return z3.And(here, HASF(k),
                           z3.ForAll([j], z3.Implies(z3.And(j >= 0, j < NIDX(k)), z3.And(FIDX(k, j) >= 0, FIDX(k, j) < NFILES)), patterns=[FIDX(k, j)]))
 
         out.append(FnContract(
@@ -385,6 +423,39 @@ def writer_contracts(reg):
             raises=[Raises("Bad7zFile"), Raises("Exception", sub=True, when=_fs_site, label="raised by the file-system primitive itself")],
             note="for every member table and every folder output: each os.makedirs / open path is inside base_path (fs-confined VCs at the real call sites, "
                  "_safe_join and _mkdirs through their VERIFIED contracts); the loop needs no invariant beyond base_path being loop-invariant"))
+        # ---- extractall(self, path, source_file=None): the directory itself, every folder's members (through the contract above), every zero-length file
+        ea = real_params(SEVEN, "SevenZipReader.extractall", ("self", "path", "source_file"))
+        ea_self, ea_path, ea_src = ea
+        NZ, NFO, NPK, NPP = z3.Int("c09_n_zero_length"), z3.Int("c09_n_folders"), z3.Int("c09_n_pack_sizes"), z3.Int("c09_n_pack_positions")
+        ZIDX, PSZ, PPOS = z3.Function("c09_zero_length_index", I_, I_), z3.Function("c09_pack_size", I_, I_), z3.Function("c09_pack_position", I_, I_)
+        zl_attr = next((n.attr for n in __import__("ast").walk(loader.module(SEVEN).functions["SevenZipReader.extractall"])
+                        if isinstance(n, __import__("ast").Attribute) and "empty" in n.attr), "_empty_file_indices")
+        fields = {"_folder_to_files": p_fmap, "_files": p_files,
+                  "_folders": Maker(lambda ex, st, name: [(NFO >= 0, VSeq(NFO, lambda i: VExt("Folder", z3.Function("c09_folder", I_, ext_sort("Folder"))(i)), "Folder"))], desc="list[Folder]"),
+                  "_pack_sizes": Maker(lambda ex, st, name: [(NPK >= 0, VSeq(NPK, lambda i: VInt(PSZ(i)), "int"))], desc="list[int]"),
+                  "_pack_positions": Maker(lambda ex, st, name: [(NPP >= 0, VSeq(NPP, lambda i: VInt(PPOS(i)), "int"))], desc="list[int]"),
+                  "_header_offset": p_int(),
+                  zl_attr: Maker(lambda ex, st, name: [(NZ >= 0, VSeq(NZ, lambda j: VInt(ZIDX(j)), "int"))], desc="indices of the zero-length files")}
+
+        def ea_requires(c):
+            c.st.ghost["temp_dir"] = c.args[ea_path].t
+            j, t = z3.Int("j!c09ea"), z3.Int("t!c09ea")
+            return z3.And(z3.ForAll([t, j], z3.Implies(z3.And(HASF(t), j >= 0, j < NIDX(t)), z3.And(FIDX(t, j) >= 0, FIDX(t, j) < NFILES)), patterns=[FIDX(t, j)]),
+                          z3.ForAll([j], z3.Implies(z3.And(j >= 0, j < NZ), z3.And(ZIDX(j) >= 0, ZIDX(j) < NFILES)), patterns=[ZIDX(j)]))
+
+        out.append(FnContract(
+            target=f"{SEVEN}::SevenZipReader._decompress_folder", assumed=True,
+            params=[(n, p_unk()) for n in real_params(SEVEN, "SevenZipReader._decompress_folder", ("self", "folder", "pack_pos", "pack_sizes", "source_file"))],
+            result_maker=lambda ex, st, ctx: VSeq(z3.Int(fresh_name("folder_out_len")), lambda i: VInt(z3.Int(fresh_name("b"))), "byte", is_bytes=True),
+            raises=[Raises("Bad7zFile")], exc_any_ok=True,
+            note="works on the in-memory archive object only (policy P1 lists every file-system call site of the module: none is in it); what it returns is C10's"))
+        out.append(FnContract(
+            target=f"{SEVEN}::SevenZipReader.extractall",
+            params=[(ea_self, p_obj("SevenZipReader", fields)), (ea_path, p_str()), (ea_src, p_opt(p_unk()))],
+            requires=ea_requires,
+            raises=[Raises("Bad7zFile"), Raises("ValueError"), Raises("Exception", sub=True, when=_fs_site, label="raised by the file-system primitive itself")],
+            note="os.makedirs(path) is the named directory itself; folders go through the VERIFIED contract of _extract_files_from_folder (call-pre: the key is "
+                 "present, indices in range); every zero-length file is created at _safe_join(path, name), its parent through _mkdirs"))
     except Exception:  # noqa  a contract that cannot be built is reported by the vacuity guard (missing obligation), never an exception
         pass
     return out
